@@ -96,7 +96,8 @@ type parser struct {
 	infixParseFns  map[token.Type]infixParseFn
 	inForBlock     bool
 	depth          int
-	gaveUpAt       int // number of errors when the input was given up as nested too deeply
+	noCallBlock    bool // parsing the iterable of a for loop: the { after it opens the loop's body, not a call's block
+	gaveUpAt       int  // number of errors when the input was given up as nested too deeply
 }
 
 func (p *parser) parseProgram() *ast.Program {
@@ -470,6 +471,9 @@ func (p *parser) parseBoolean() ast.Expression {
 }
 
 func (p *parser) parseGroupedExpression() ast.Expression {
+	defer func(outer bool) { p.noCallBlock = outer }(p.noCallBlock)
+	p.noCallBlock = false
+
 	p.nextToken()
 	exp := p.parseExpression(LOWEST)
 
@@ -534,7 +538,9 @@ func (p *parser) parseForExpression() ast.Expression {
 	}
 
 	p.nextToken()
+	p.noCallBlock = true
 	expression.Iterable = p.parseExpression(LOWEST)
+	p.noCallBlock = false
 
 	// "for (x) in f() {" : the loop's block was parsed as the block of the
 	// (last) call of the iterable expression
@@ -652,6 +658,9 @@ func (p *parser) parseBlockStatement() *ast.BlockStatement {
 }
 
 func (p *parser) parseFunctionLiteral() ast.Expression {
+	defer func(outer bool) { p.noCallBlock = outer }(p.noCallBlock)
+	p.noCallBlock = false
+
 	lit := &ast.FunctionLiteral{TokenAble: ast.TokenAble{Token: p.curToken}}
 
 	if !p.expectPeek(token.LPAREN) {
@@ -736,7 +745,7 @@ func (p *parser) parseCallExpression(function ast.Expression) ast.Expression {
 
 	exp.Arguments = p.parseExpressionList(token.RPAREN)
 
-	if p.peekTokenIs(token.LBRACE) {
+	if p.peekTokenIs(token.LBRACE) && !p.noCallBlock {
 		p.nextToken()
 		exp.Block = p.parseBlockStatement()
 	}
@@ -759,6 +768,8 @@ func (p *parser) parseCallExpression(function ast.Expression) ast.Expression {
 }
 
 func (p *parser) parseExpressionList(end token.Type) []ast.Expression {
+	defer func(outer bool) { p.noCallBlock = outer }(p.noCallBlock)
+	p.noCallBlock = false
 
 	list := []ast.Expression{}
 
@@ -794,7 +805,10 @@ func (p *parser) parseIndexExpression(left ast.Expression) ast.Expression {
 	exp := &ast.IndexExpression{TokenAble: ast.TokenAble{Token: p.curToken}, Left: left}
 
 	p.nextToken()
+	noCallBlock := p.noCallBlock
+	p.noCallBlock = false
 	exp.Index = p.parseExpression(LOWEST)
+	p.noCallBlock = noCallBlock
 
 	if !p.expectPeek(token.RBRACKET) {
 		return nil
@@ -916,6 +930,9 @@ func rootIdentifier(exp ast.Expression) *ast.Identifier {
 }
 
 func (p *parser) parseHashLiteral() ast.Expression {
+	defer func(outer bool) { p.noCallBlock = outer }(p.noCallBlock)
+	p.noCallBlock = false
+
 	hash := &ast.HashLiteral{TokenAble: ast.TokenAble{Token: p.curToken}}
 	hash.Pairs = make(map[ast.Expression]ast.Expression)
 	hash.Order = make([]ast.Expression, 0)
